@@ -29,3 +29,19 @@ Proof.
   split; [apply to_cfg_left_start; assumption|intros; apply pwb_reverse].
 Qed.
 Print Assumptions C17_to_cfg_left.
+
+(* Byte-level conversion of an automaton (WFSA.to_bytes, with chain states that belong to one arc
+   each): every byte string gets the total weight of the symbol strings whose encoding it is -- in
+   particular zero if it is not an encoding (e.g. a truncated multi-byte character). *)
+From GV.model Require Import Bytes.
+From GV.proofs Require Import BytesProofs.
+Theorem C17_to_bytes : forall (S : SR) (enc : nat -> list nat) (fresh : nat -> nat -> nat) (m : wfsa S) (V : list nat) (bs : list nat) (fuel : nat),
+  NoDup V ->
+  (forall ar, In ar (warcs m) -> exists a, albl ar = Some a /\ In a V) ->
+  (forall a, In a V -> enc a <> []) ->
+  (forall k i k' i', fresh k i = fresh k' i' -> k = k' /\ i = i') ->
+  (forall k i q, fresh k i = q -> ~ (In q (map fst (winit m)) \/ In q (map fst (wfinal m)) \/ exists ar, In ar (warcs m) /\ (asrc ar = q \/ adst ar = q))) ->
+  length bs <= fuel ->
+  pathsum (to_bytes enc fresh m) bs = bsum (decodings enc V fuel bs) (fun xs => pathsum m xs).
+Proof. intros; apply to_bytes_pathsum; assumption. Qed.
+Print Assumptions C17_to_bytes.
